@@ -300,3 +300,96 @@ func originName(fn *ssa.Function) string {
 	}
 	return an.FnName(fn)
 }
+
+// D5: a sort.Slice comparator compares elements of the slice being sorted.  sort.Slice(x, less)
+// permutes x and calls less(i, j) with indices INTO x as it is being permuted.  A comparator that
+// uses i and j to index another slice (`sort.Slice(parts, func(a, b int) bool { return keys[a] <
+// keys[b] })`) compares positions that do not move with the elements: the result depends on the
+// initial order of x - the iteration order of the map x was collected from - and differs from run
+// to run.  Rule: in every sort.Slice / sort.SliceStable call of the runtime and syntax packages
+// whose comparator indexes some slice with its parameters, one of the indexed slices is the slice
+// being sorted.
+func ruleD5(c *an.Ctx) {
+	p := c.P
+	n := 0
+	for _, pk := range []string{pkgCore, pkgSyntax} {
+		for _, fn := range p.FuncsOf(pk) {
+			an.Instrs(fn, func(in ssa.Instruction) {
+				cl, ok := in.(ssa.CallInstruction)
+				if !ok {
+					return
+				}
+				f := cl.Common().StaticCallee()
+				if f == nil || f.Pkg == nil || f.Pkg.Pkg.Path() != "sort" || (f.Name() != "Slice" && f.Name() != "SliceStable") || len(cl.Common().Args) != 2 {
+					return
+				}
+				sorted := an.Strip(cl.Common().Args[0])
+				mc, ok := cl.Common().Args[1].(*ssa.MakeClosure)
+				if !ok {
+					return
+				}
+				less, _ := mc.Fn.(*ssa.Function)
+				if less == nil || len(less.Params) != 2 {
+					return
+				}
+				// what a free variable of the closure is bound to
+				binding := map[*ssa.FreeVar]ssa.Value{}
+				for i, fv := range less.FreeVars {
+					if i < len(mc.Bindings) {
+						binding[fv] = mc.Bindings[i]
+					}
+				}
+				same := func(base ssa.Value) bool {
+					// inside the closure: a load of a free variable (cell of the captured local) or the free variable itself
+					v := base
+					if u, ok := v.(*ssa.UnOp); ok {
+						v = u.X
+					}
+					fv, ok := v.(*ssa.FreeVar)
+					if !ok {
+						return false
+					}
+					b := binding[fv]
+					if b == nil {
+						return false
+					}
+					// the sorted argument is a load of the same cell, or the same value
+					if b == sorted {
+						return true
+					}
+					if su, ok := sorted.(*ssa.UnOp); ok && su.X == b {
+						return true
+					}
+					return an.Path(b) == an.Path(sorted)
+				}
+				indexed, own := 0, false
+				an.Instrs(less, func(x ssa.Instruction) {
+					var base, idx ssa.Value
+					switch y := x.(type) {
+					case *ssa.IndexAddr:
+						base, idx = y.X, y.Index
+					case *ssa.Index:
+						base, idx = y.X, y.Index
+					default:
+						return
+					}
+					if idx != ssa.Value(less.Params[0]) && idx != ssa.Value(less.Params[1]) {
+						return
+					}
+					indexed++
+					// the same local through a captured cell, or the same field path through a captured receiver
+					if same(base) || (an.StablePath(base) == an.StablePath(sorted) && !strings.Contains(an.StablePath(base), "_")) {
+						own = true
+					}
+				})
+				if indexed == 0 {
+					return
+				}
+				n++
+				c.Check("D5", "comparator-indexes-the-sorted-slice("+an.StablePath(sorted)+")@"+originName(fn), in.Pos(), own,
+					"the comparator passed to sort.Slice indexes only other slices with its parameters, never the slice being sorted: it compares positions that do not move with the elements, so the outcome depends on the initial order of the slice (map iteration order when it was collected from a map)")
+			})
+		}
+	}
+	c.Floor("D5", "sort.Slice comparators that index by their parameters", n, 3)
+}
